@@ -350,7 +350,7 @@ Section Walk.
     end.
   Definition w_iterate_ancestors := anc_loop fc.
 
-  (* depth: TagNode counts `while node.parent is not None:`; the others are parent.depth + 1; a DETACHED text node has depth 0 *)
+  (* depth: TagNode counts `while node.parent is not None:`; the others: 0 without parent, else parent.depth + 1 *)
   Fixpoint tag_depth (fuel : nat) (node : nid) (acc : nat) : res nat :=
     match fuel with
     | O => OutOfFuel
@@ -364,7 +364,7 @@ Section Walk.
     if is_tag n then tag_depth fc n 0
     else p <- parent n ;;
          match p with
-         | None => if is_text n then Ok 0%nat else Crash AttributeError
+         | None => Ok 0%nat                                   (* `if parent is None: return 0` *)
          | Some p => d <- tag_depth fc p 0 ;; Ok (S d)
          end.
 
@@ -504,7 +504,7 @@ Section OnHeap.
   Definition h_iterate_descendants := w_iterate_descendants FR NX TG fu fu.
   Definition h_last_descendant := w_last_descendant FR NX TG fu.
   Definition h_iterate_ancestors (D : nfilter) := w_iterate_ancestors PA fu.      (* D: not consulted *)
-  Definition h_depth (D : nfilter) := w_depth PA TG TX fu.
+  Definition h_depth (D : nfilter) := w_depth PA TG fu.
   Definition h_iterate_following := w_iterate_following FR NX PA TG fu fu.
   Definition h_iterate_preceding (D : nfilter) := w_iterate_preceding FR NX PV PA TG fu fu.     (* D: not consulted *)
   Definition h_fetch_following := w_fetch_following FR NX PA TG fu fu.
